@@ -71,7 +71,6 @@ fn f2_translate_dispatch() {
 /// I4t: one Translator used for two inputs in different formats appends to the same writer
 /// in call order (JSON target): first input two documents, second input one.
 #[kani::proof]
-#[kani::stub(std::io::Write::write_fmt, depcommon::write_fmt_contract)]
 #[kani::unwind(10)]
 fn i4_translator_two_inputs() {
 	let a: u8 = kani::any();
